@@ -86,13 +86,13 @@ func (k Known) Matches(f *Failure) bool {
 		return false
 	}
 	if k.DetailRegex != "" {
-		re := regexp.MustCompile(k.DetailRegex)
+		re := cachedRegexp(k.DetailRegex)
 		if !re.MatchString(f.Sig + "\n" + f.Detail) {
 			return false
 		}
 	}
 	for _, req := range k.Features {
-		re := regexp.MustCompile(strings.TrimPrefix(req, "src:"))
+		re := cachedRegexp(strings.TrimPrefix(req, "src:"))
 		ok := false
 		if strings.HasPrefix(req, "src:") {
 			for _, src := range f.Files {
@@ -141,6 +141,7 @@ type Report struct {
 	StatesN       int
 	NontrivialN   int
 	failures      map[string]*Failure
+	known         []Known
 	failCount     map[string]int
 	InternalError []string
 }
@@ -195,6 +196,20 @@ func (r *Report) Fail(f Failure) {
 	defer r.mu.Unlock()
 	f.Property = r.Property
 	k := f.key()
+	// a failure that a known finding explains never stands for one it does not explain: the two
+	// are kept apart even when clause and signature are the same
+	if r.known == nil {
+		r.known = LoadKnown()
+		if r.known == nil {
+			r.known = []Known{}
+		}
+	}
+	for i, kn := range r.known {
+		if kn.Matches(&f) {
+			k += fmt.Sprintf("|known#%d", i)
+			break
+		}
+	}
 	r.failCount[k]++
 	if old, ok := r.failures[k]; ok {
 		if old.Cost < f.Cost || (old.Cost == f.Cost && len(fmt.Sprint(old.Vector)) <= len(fmt.Sprint(f.Vector))) {
@@ -359,4 +374,21 @@ func capOutcomes(m map[string]int) map[string]int {
 	}
 	out["(other outcomes)"] = rest
 	return out
+}
+
+var (
+	reCacheMu sync.Mutex
+	reCache   = map[string]*regexp.Regexp{}
+)
+
+// cachedRegexp compiles each expression of known_findings.json once.
+func cachedRegexp(expr string) *regexp.Regexp {
+	reCacheMu.Lock()
+	defer reCacheMu.Unlock()
+	re, ok := reCache[expr]
+	if !ok {
+		re = regexp.MustCompile(expr)
+		reCache[expr] = re
+	}
+	return re
 }
